@@ -60,8 +60,9 @@ func verifSandbox() (parent, dest string, check func()) {
 	os.Mkdir(parent+"/sib", 0700)
 	os.WriteFile(parent+"/sib/inner", []byte("I"), 0600)
 	outside := func() int {
-		if vSymbolic() { // engine: the whole model file system
-			return len(vFSList("/")) - len(vFSList(dest))
+		// the whole (model / jailed) file system except what is beneath the destination
+		if all := vFSList("/"); all != nil {
+			return len(all) - len(vFSList(dest))
 		}
 		return len(vFSList(parent)) - len(vFSList(dest))
 	}
